@@ -22,6 +22,7 @@ pub struct Env {
     pub paths: Paths,
     pub keys: KeyTable,
     pub probhat: LayoutInfo,
+    pub probhat_alt: LayoutInfo,
     pub synthetic: LayoutInfo,
     /// suffix.json: latin key -> Bengali suffix.
     pub suffix: BTreeMap<String, String>,
@@ -282,6 +283,30 @@ impl Env {
         let paths = Paths::resolve();
         let keys = KeyTable::from_header(&paths.header)?;
         let probhat = read_layout(&paths.probhat, &keys)?;
+        // the customised copy: same file name in another directory, two pairs of keys swapped
+        {
+            let text = fs::read_to_string(&paths.probhat).map_err(|e| format!("{}: {}", paths.probhat, e))?;
+            let mut v: serde_json::Value = serde_json::from_str(&text).map_err(|e| format!("{}: {}", paths.probhat, e))?;
+            if let Some(map) = v["layout"].as_object_mut() {
+                for (a, b) in [("Key_h_Normal", "Key_k_Normal"), ("Key_a_Normal", "Key_s_Normal")] {
+                    let (va, vb) = (map.get(a).cloned(), map.get(b).cloned());
+                    if let (Some(va), Some(vb)) = (va, vb) {
+                        map.insert(a.to_string(), vb);
+                        map.insert(b.to_string(), va);
+                    }
+                }
+            }
+            let dir = std::path::Path::new(&paths.probhat_alt).parent().unwrap().to_path_buf();
+            fs::create_dir_all(&dir).map_err(|e| format!("{}: {}", dir.display(), e))?;
+            let bytes = serde_json::to_string(&v).unwrap();
+            let same = fs::read_to_string(&paths.probhat_alt).map(|s| s == bytes).unwrap_or(false);
+            if !same {
+                let tmp = format!("{}.{}.tmp", paths.probhat_alt, std::process::id());
+                fs::write(&tmp, &bytes).map_err(|e| format!("{}: {}", tmp, e))?;
+                fs::rename(&tmp, &paths.probhat_alt).map_err(|e| format!("{}: {}", paths.probhat_alt, e))?;
+            }
+        }
+        let probhat_alt = read_layout(&paths.probhat_alt, &keys)?;
         let synthetic = read_layout(&paths.synthetic, &keys)?;
         let kept = ensure_small_data(&paths)?;
 
@@ -322,6 +347,7 @@ impl Env {
             paths,
             keys,
             probhat,
+            probhat_alt,
             synthetic,
             suffix,
             suffix_keys,
@@ -346,6 +372,7 @@ impl Env {
         match kind {
             LayoutKind::Phonetic => None,
             LayoutKind::Probhat => Some(&self.probhat),
+            LayoutKind::ProbhatAlt => Some(&self.probhat_alt),
             LayoutKind::Synthetic => Some(&self.synthetic),
         }
     }
